@@ -73,6 +73,10 @@ pub struct Stats {
     pub ops_used: BTreeMap<String, u64>,
     pub samples: Vec<J>,
     pub notes: BTreeMap<String, String>,
+    /// deviations that are candidates for the known-findings file: key -> (count, first detail, first run)
+    pub findings: BTreeMap<String, (u64, String, u64)>,
+    /// run currently executing (for findings)
+    pub cur_run: u64,
     /// running hash of everything the current run observed (the run's event log)
     pub cur_log: u64,
     /// run index -> event-log hash (determinism self-check)
@@ -96,6 +100,17 @@ impl Stats {
     }
     /// Count one evaluated case; `sig` identifies it for the distinct count,
     /// `nontrivial` says whether it fired a fault / took a non-canonical path.
+    /// Record a deviation from the property that is identified by a stable key
+    /// (a specific input class / call site).  The driver reports it as
+    /// KNOWN-FINDING if the key is listed in known_findings.txt, and as a
+    /// VIOLATION otherwise.  The run continues.
+    pub fn finding(&mut self, key: &str, detail: String) {
+        let run = self.cur_run;
+        let e = self.findings.entry(key.to_string()).or_insert((0, detail, run));
+        e.0 += 1;
+        let d = crate::prng::digest(key.as_bytes());
+        self.log(d);
+    }
     pub fn log(&mut self, v: u64) {
         let mut x = self.cur_log ^ v.wrapping_mul(0x9E37_79B9_7F4A_7C15);
         self.cur_log = crate::prng::splitmix64(&mut x);
@@ -191,6 +206,7 @@ pub struct Outcome {
 /// Execute one run (pure function of prop, seed, run, spec and the code).
 pub fn execute(prop: &'static str, f: PropFn, seed: u64, run: u64, thorough: bool, spec: &Spec, st: &mut Stats) -> Outcome {
     st.cur_log = 0;
+    st.cur_run = run;
     let mut ctx = RunCtx { prop, seed, run, thorough, spec: spec.clone(), st, hints: Hints::default(), explicit: Vec::new() };
     let r = guarded(|| f(&mut ctx));
     if let Ok(Err(v)) = &r {
@@ -346,6 +362,14 @@ pub fn stats_json(st: &Stats, wall: f64) -> J {
         ("ops_used", J::O(st.ops_used.iter().map(|(k, v)| (k.clone(), J::U(*v))).collect())),
         ("samples", J::A(st.samples.clone())),
         ("notes", J::O(st.notes.iter().map(|(k, v)| (k.clone(), J::S(v.clone()))).collect())),
+        (
+            "findings",
+            J::A(st
+                .findings
+                .iter()
+                .map(|(k, (n, d, r))| J::obj(vec![("key", J::s(k.clone())), ("count", J::U(*n)), ("detail", J::s(d.clone())), ("run", J::U(*r))]))
+                .collect()),
+        ),
         ("runlogs", J::O(st.runlogs.iter().map(|(k, v)| (k.to_string(), J::S(format!("{:016x}", v)))).collect())),
         ("sched", sched_stats_json(&sched)),
         ("hash_draws", J::U(crate::seams::hash_draws())),
